@@ -53,5 +53,5 @@ for d in sorted(glob.glob(V + "/seeded/*/meta.json")):
         if "violated key=" in ln:
             keys.append(ln.split("violated key=")[1].split(":")[0][:60])
     also = sorted(k for k, v in r.get("cross_checks", {}).items() if v.get("detected"))
-    print("| %s | %s | %s | %s | %s |" % (name, m.get("needs_to_manifest", "")[:260].replace("|", "\\|").replace("\n", " "), "caught" if ok else "MISSED", "; ".join(keys[:2]).replace("|", "\\|"), ", ".join(also)))
+    print("| %s | %s | %s | %s | %s |" % (name, m.get("needs_to_manifest", "")[:260].replace("|", "\\|").replace("\n", " "), "caught" if ok else m.get("not_caught_because", "MISSED"), "; ".join(keys[:2]).replace("|", "\\|"), ", ".join(also)))
 print("\n%d of %d seeded changes are caught by the quick check of their own property at the current /repo HEAD." % (caught, tot))
